@@ -1,2 +1,241 @@
-(* Properties/C13.v — placeholder while the model is being tied to the code. *)
-From WK Require Import Base.Base Model.SlotFSM Model.SlotFSM_tlv Model.SlotFSM_C13.
+(* C13 — The slot state machine is deterministic and batch-transparent.
+   Only statements, each closed by [exact] of a lemma from Proof/SlotFSM_*.v.
+
+   Model: Model/SlotFSM.v (ApplyBatch of pkg/slot/fsm over the WriteBatch of pkg/db/meta, as a
+   generic batch machine instantiated with the code that exists), Model/SlotFSM_tlv.v (the
+   command decoder), Model/SlotFSM_C13.v (case record, model/implementation comparison, monitor).
+
+   What is proved, and for what:
+   * the overlay theorem, generically: a batch machine whose staging loop and deferred operations
+     read only through the batch view (overlay_machine) gives the same results and an equivalent
+     store however a log is cut into batches; an error stops a batch without effect;
+   * the slot state machine IS such a machine, for every configuration, on the commands
+     noop / upsert_user / create_user / enter_fence / ack / apply_delta of those and of cleanup;
+   * it is NOT on the channel-migration commands and on the outbox cleanup command: five
+     refutations, each a corpus input on which the real code and the model diverge in the same way
+     (known findings C13-K1..K5);
+   * commands for hash slots the slot does not own (or with a foreign slot id) are refused, the
+     store is untouched; the decoder answers every byte string, never reads past the end, and
+     round-trips the migration commands;
+   * the monitor evaluated on implementation traces accepts every trace of the model. *)
+From WK Require Import Base.Base Base.Bytes.
+From WK Require Import Gen.Consts_C15 Gen.Consts_C17 Gen.Consts_C13.
+From WK Require Import Model.RuntimeMeta Model.ChanMigration Model.SlotFSM Model.SlotFSM_tlv Model.SlotFSM_C13.
+From WK Require Import Proof.SlotFSM_machine Proof.SlotFSM_inst Proof.SlotFSM_props Proof.SlotFSM_tlv
+     Proof.SlotFSM_refuted Proof.SlotFSM_monitor.
+Open Scope N_scope.
+
+(* ---- the overlay theorem (generic) ------------------------------------------------------------------ *)
+
+(* a batch that returns results = the same commands one per batch: same results, equivalent store *)
+Theorem c13_overlay_seq :
+  forall (S T V O C R : Type) (stage : S -> T -> C -> @sres T O R) (t0 : T) (finish : list C -> list O)
+         (v0 : S -> V) (run_op : S -> V -> O -> @ores V) (flush : S -> V -> S) (r_stale : R)
+         (eqv : S -> S -> Prop) (good : C -> Prop) (good_op : O -> Prop)
+         (Vinv : S -> V -> Prop) (Agree : S -> T -> V -> Prop),
+    overlay_machine stage t0 finish v0 run_op flush eqv good good_op Vinv Agree ->
+    forall s cs s' rs,
+      Forall good cs ->
+      ApplyBatch stage t0 finish v0 run_op flush r_stale s cs = (s', BRes rs) ->
+      exists s'', apply_individually stage t0 finish v0 run_op flush r_stale s cs = (s'', BRes rs) /\ eqv s'' s'.
+Proof. exact (@overlay_seq). Qed.
+Print Assumptions c13_overlay_seq.
+
+(* an error met while staging or committing (decode, ownership, validation, a non-stale commit
+   error) ends ApplyBatch with the store it started from *)
+Theorem c13_abort_no_effect :
+  forall (S T V O C R : Type) (stage : S -> T -> C -> @sres T O R) (t0 : T) (finish : list C -> list O)
+         (v0 : S -> V) (run_op : S -> V -> O -> @ores V) (flush : S -> V -> S) (r_stale : R) s cs e,
+    apply_core stage t0 finish v0 run_op flush s cs = CoreErr e ->
+    ApplyBatch stage t0 finish v0 run_op flush r_stale s cs = (s, BErr e).
+Proof. exact (@machine_abort_no_effect). Qed.
+Print Assumptions c13_abort_no_effect.
+
+(* a failing batch: the one-per-batch run fails too; the store is the initial one, or (fallback
+   after a stale commit) exactly the one-per-batch store *)
+Theorem c13_fatal_agrees :
+  forall (S T V O C R : Type) (stage : S -> T -> C -> @sres T O R) (t0 : T) (finish : list C -> list O)
+         (v0 : S -> V) (run_op : S -> V -> O -> @ores V) (flush : S -> V -> S) (r_stale : R)
+         (eqv : S -> S -> Prop) (good : C -> Prop) (good_op : O -> Prop)
+         (Vinv : S -> V -> Prop) (Agree : S -> T -> V -> Prop),
+    overlay_machine stage t0 finish v0 run_op flush eqv good good_op Vinv Agree ->
+    forall s cs s' e,
+      Forall good cs ->
+      ApplyBatch stage t0 finish v0 run_op flush r_stale s cs = (s', BErr e) ->
+      exists s'' e', apply_individually stage t0 finish v0 run_op flush r_stale s cs = (s'', BErr e')
+                     /\ (s' = s \/ s' = s'').
+Proof. exact (@overlay_fatal). Qed.
+Print Assumptions c13_fatal_agrees.
+
+(* every partition of a log whose one-per-batch run succeeds: same results, equivalent store *)
+Theorem c13_partition_invariant :
+  forall (S T V O C R : Type) (stage : S -> T -> C -> @sres T O R) (t0 : T) (finish : list C -> list O)
+         (v0 : S -> V) (run_op : S -> V -> O -> @ores V) (flush : S -> V -> S) (r_stale : R)
+         (eqv : S -> S -> Prop) (good : C -> Prop) (good_op : O -> Prop)
+         (Vinv : S -> V -> Prop) (Agree : S -> T -> V -> Prop),
+    overlay_machine stage t0 finish v0 run_op flush eqv good good_op Vinv Agree ->
+    forall bs s s' rs,
+      Forall good (concat bs) ->
+      apply_individually stage t0 finish v0 run_op flush r_stale s (concat bs) = (s', BRes rs) ->
+      exists s'' outs, apply_partition stage t0 finish v0 run_op flush r_stale s bs = (s'', outs)
+                       /\ all_results outs = Some rs /\ eqv s'' s'.
+Proof. exact (@overlay_partition). Qed.
+Print Assumptions c13_partition_invariant.
+
+(* ---- the slot state machine ----------------------------------------------------------------------------- *)
+
+(* for every configuration the model of ApplyBatch is an overlay machine on the good commands;
+   stores are compared up to the slot applied index *)
+Theorem c13_fsm_is_overlay_machine : forall cfg,
+  overlay_machine (fsm_stage cfg) bstate0 fsm_finish fsm_v0 fsm_run_op fsm_flush
+                  store_eqv good_cmd good_wop (fun _ _ => True) agree.
+Proof. exact fsm_overlay_machine. Qed.
+Print Assumptions c13_fsm_is_overlay_machine.
+
+Theorem c13_fsm_partition_invariant : forall cfg bs d d' rs,
+  Forall good_cmd (concat bs) ->
+  fsm_apply_individually cfg d (concat bs) = (d', BRes rs) ->
+  exists d'' outs, fsm_apply_partition cfg d bs = (d'', outs) /\ all_results outs = Some rs /\ store_eqv d'' d'.
+Proof. exact fsm_partition_invariant. Qed.
+Print Assumptions c13_fsm_partition_invariant.
+
+Theorem c13_fsm_batch_eq_singles : forall cfg d cs d' rs,
+  Forall good_cmd cs ->
+  fsm_apply_batch cfg d cs = (d', BRes rs) ->
+  exists d'', fsm_apply_individually cfg d cs = (d'', BRes rs) /\ store_eqv d'' d'.
+Proof. exact fsm_batch_eq_singles. Qed.
+Print Assumptions c13_fsm_batch_eq_singles.
+
+Theorem c13_fsm_fatal_agrees : forall cfg d cs d' e,
+  Forall good_cmd cs ->
+  fsm_apply_batch cfg d cs = (d', BErr e) ->
+  exists d'' e', fsm_apply_individually cfg d cs = (d'', BErr e') /\ (d' = d \/ d' = d'').
+Proof. exact fsm_fatal_agrees. Qed.
+Print Assumptions c13_fsm_fatal_agrees.
+
+(* a batch containing a command with a foreign slot id, or for a hash slot the slot neither owns
+   nor may receive migration maintenance for, is refused as a whole; nothing is written *)
+Theorem c13_unowned_refused : forall cfg d cs c,
+  In c cs ->
+  fc_slot_ok c = false \/ resolveHashSlot cfg c = None ->
+  exists e, fsm_apply_batch cfg d cs = (d, BErr e).
+Proof. exact fsm_unowned_refused. Qed.
+Print Assumptions c13_unowned_refused.
+
+Theorem c13_unowned_resolve : forall cfg c,
+  isMigrationMaintenanceCommand (fc_cmd c) = false ->
+  memN (if (fc_hs c =? 0) && cfg_allow_legacy cfg then cfg_legacy cfg else fc_hs c) (cfg_owned cfg) = false ->
+  resolveHashSlot cfg c = None.
+Proof. exact resolve_unowned. Qed.
+Print Assumptions c13_unowned_resolve.
+
+(* ---- the statement is false of the code on two command families (known findings) ---------------------- *)
+
+(* each witness: the model reproduces what the real state machine did on the corpus input (so the
+   divergence is the code's), the monitor names the finding, and on the model alone some partition
+   of the log departs from the one-command-per-batch run *)
+Theorem c13_k1_refuted : exists c, C13_mismatch c = false /\ C13_monitor c = 2 /\ diverges c = true.
+Proof. exact k1_refuted. Qed.
+Print Assumptions c13_k1_refuted.
+
+Theorem c13_k2_refuted : exists c, C13_mismatch c = false /\ C13_monitor c = 3 /\ diverges c = true.
+Proof. exact k2_refuted. Qed.
+Print Assumptions c13_k2_refuted.
+
+Theorem c13_k3_refuted : exists c, C13_mismatch c = false /\ C13_monitor c = 4 /\ diverges c = true.
+Proof. exact k3_refuted. Qed.
+Print Assumptions c13_k3_refuted.
+
+Theorem c13_k4_refuted : exists c, C13_mismatch c = false /\ C13_monitor c = 5 /\ diverges c = true.
+Proof. exact k4_refuted. Qed.
+Print Assumptions c13_k4_refuted.
+
+Theorem c13_k5_refuted : exists c, C13_mismatch c = false /\ C13_monitor c = 6 /\ diverges c = true.
+Proof. exact k5_refuted. Qed.
+Print Assumptions c13_k5_refuted.
+
+(* ---- the decoder ---------------------------------------------------------------------------------------------- *)
+
+(* a TLV field consumes at least its header and never more bytes than there are *)
+Theorem c13_decode_field_bounds : forall data tag v n,
+  readTLV data = Some (tag, v, n) ->
+  (5 <= n <= length data)%nat /\ length v = (n - 5)%nat /\ v = firstn (n - 5) (skipn 5 data).
+Proof. exact readTLV_consumed. Qed.
+Print Assumptions c13_decode_field_bounds.
+
+(* the field loop is total: it never stops for lack of fuel, whatever the bytes *)
+Theorem c13_decode_total : forall data fuel, (length data <= fuel)%nat -> tlv_fields fuel data = fields_of data.
+Proof. exact tlv_fields_total. Qed.
+Print Assumptions c13_decode_total.
+
+Theorem c13_decode_header_short : forall data, (length data < 2)%nat -> decodeCommand data = DecErr DEC_CORRUPT.
+Proof. exact decode_short. Qed.
+Print Assumptions c13_decode_header_short.
+
+Theorem c13_decode_unknown_type : forall t payload,
+  existsb (N.eqb t) commandTypes = false -> decodeCommand (commandVersion :: t :: payload) = DecErr DEC_INVALID.
+Proof. exact decode_unknown_type. Qed.
+Print Assumptions c13_decode_unknown_type.
+
+(* unknown tags are skipped by the apply_delta and enter_fence field loops *)
+Theorem c13_decode_skips_unknown_tags : forall a tag v,
+  negb (existsb (N.eqb tag) [tagApplyDeltaSourceSlotID; tagApplyDeltaSourceIndex; tagApplyDeltaHashSlot;
+                              tagApplyDeltaOriginalCmd]) = true ->
+  delta_step a (tag, v) = Some a.
+Proof. exact delta_step_unknown. Qed.
+Print Assumptions c13_decode_skips_unknown_tags.
+
+Theorem c13_decode_encode_apply_delta : forall s i h orig,
+  u64_ok s -> u64_ok i -> h <= 65535 -> N.of_nat (length orig) < 4294967296 ->
+  decodeCommand (encodeApplyDelta s i h orig) = DecDelta s i h orig.
+Proof. exact decode_encode_apply_delta. Qed.
+Print Assumptions c13_decode_encode_apply_delta.
+
+Theorem c13_decode_encode_outbox : forall cleanup h s t i,
+  h <= 65535 -> u64_ok s -> u64_ok t -> u64_ok i ->
+  decodeCommand (encodeMigrationOutbox cleanup h s t i) = if cleanup then DecCleanup h s t i else DecAck h s t i.
+Proof. exact decode_encode_outbox. Qed.
+Print Assumptions c13_decode_encode_outbox.
+
+(* ---- the monitor ---------------------------------------------------------------------------------------------------- *)
+
+(* C13_monitor is 0 on the case built from the model's own runs of a log of good commands whose
+   one-per-batch run meets no error, for any partitions of the log, any digest that ignores the
+   applied index and any hash of the result bytes.  Hence: model = implementation on a case
+   (C13_mismatch false) and a monitor failure on it cannot both happen on such a log. *)
+Theorem c13_model_satisfies_monitor :
+  forall cfg (dg : store -> N), (forall a b, store_eqv a b -> dg a = dg b) ->
+  forall (hr : fres -> N) es szs sfin rs,
+    Forall good_cmd (to_fcmds 1 es) ->
+    fsm_apply_individually cfg store_empty (to_fcmds 1 es) = (sfin, BRes rs) ->
+    Forall (fun sizes => Forall (fun s => 1 <= s) sizes
+                         /\ fold_right (fun s acc => (N.to_nat s + acc)%nat) 0%nat sizes = length es) szs ->
+    C13_monitor (model_case cfg dg hr es szs) = 0.
+Proof. exact model_satisfies_monitor. Qed.
+Print Assumptions c13_model_satisfies_monitor.
+
+(* ---- non-vacuity -------------------------------------------------------------------------------------------------------- *)
+
+(* a log of good commands that exercises the outbox, the fence, acks and replayed deltas under an
+   outgoing migration: the hypotheses of the partition theorem hold and the one-per-batch run
+   succeeds; two different partitions give the same tables *)
+Definition ex_cfg : fsm_cfg := Cfg 11 [11; 12] 11 false [(12, (21, migrationPhaseDelta))].
+Definition ex_log : list fcmd := to_fcmds 1
+  [ Entry true 12 (HUser false (hx "7531") (hx "61") 0%Z 0%Z) (hx "0101") None;
+    Entry true 11 (HDelta 31 7 11 (Some (HUser true (hx "7532") (hx "62") 1%Z 0%Z))) [] None;
+    Entry true 12 (HFence 12 0) (hx "0115") None;
+    Entry true 12 (HUser false (hx "7533") (hx "63") 0%Z 0%Z) (hx "0101") None;
+    Entry true 12 (HAck 12 11 21 1) [] None;
+    Entry true 11 (HDelta 31 7 11 (Some (HUser true (hx "7532") (hx "64") 1%Z 0%Z))) [] None ].
+
+Example c13_example_good : forallb (fun c => good_hcmd (fc_cmd c)) ex_log = true.
+Proof. vm_compute. reflexivity. Qed.
+
+Example c13_example_partitions_agree :
+  let '(s1, r1) := fsm_apply_individually ex_cfg store_empty ex_log in
+  let '(s2, r2) := fsm_apply_batch ex_cfg store_empty ex_log in
+  let '(s3, o3) := fsm_apply_partition ex_cfg store_empty (split_sizes [2; 3; 1] ex_log) in
+  bres_eqb r1 r2 = true /\ store_data_eqb s1 s2 = true /\ store_data_eqb s1 s3 = true
+  /\ bres_eqb r1 (BRes [(R_OK, [Forward 21 12 1 (hx "0101")]); (R_OK, []); (R_OK, [Forward 21 12 3 (hx "0115")]);
+                        (R_FENCED, []); (R_OK, []); (R_OK, [])]) = true.
+Proof. vm_compute. repeat split; reflexivity. Qed.
